@@ -21,6 +21,8 @@ def gen_rule(rng, p, head_rel, body_rels, opts):
     def fresh():
         nv[0] += 1; return nv[0] - 1
     bound = []          # integer-typed bound variables
+    derived = set()     # variables defined by let / if let (possibly through arithmetic): guarded when they reach a head, so that
+                        # every column value stays in [0, BOUND] and every generated program terminates
     body, guards = [], []
     def int_ex(allow_arith=True):
         r = rng.below(10)
@@ -33,10 +35,10 @@ def gen_rule(rng, p, head_rel, body_rels, opts):
         r = rng.below(4)
         if r == 0 and bound: return ("if", (rng.choice(["lt", "le", "ne", "eq"]), ("var", rng.choice(bound)), rng.range(0, BOUND)))
         if r == 1:
-            v = fresh(); it = ("let", v, int_ex()); bound.append(v); return it
+            v = fresh(); it = ("let", v, int_ex()); bound.append(v); derived.add(v); return it
         if r == 2:
             v = fresh(); it = ("for", v, ("range", rng.range(0, 2), rng.range(1, 4)) if rng.chance(2, 3) else ("list", [rng.range(0, 4) for _ in range(rng.range(1, 3))])); bound.append(v); return it
-        v = fresh(); it = ("iflet", v, ("somex", int_ex()) if rng.chance(4, 5) else "none"); bound.append(v); return it
+        v = fresh(); it = ("iflet", v, ("somex", int_ex()) if rng.chance(4, 5) else "none"); bound.append(v); derived.add(v); return it
     if opts.get("pre_items") and rng.chance(1, 3): body.append(free_item())
     for ci, r in enumerate(body_rels):
         ar = p["rels"][r]["arity"]
@@ -59,7 +61,7 @@ def gen_rule(rng, p, head_rel, body_rels, opts):
         if opts.get("conds") and rng.chance(1, 4) and bound:
             conds.append(("if", (rng.choice(["lt", "le", "ne"]), ("var", rng.choice(bound)), rng.range(1, BOUND))))
             if rng.chance(1, 3):
-                v = fresh(); conds.append(("let", v, ("add", ("var", rng.choice(bound)), rng.range(0, 1)))); bound.append(v)
+                v = fresh(); conds.append(("let", v, ("add", ("var", rng.choice(bound)), rng.range(0, 1)))); bound.append(v); derived.add(v)
         body.append(("cl", r, args, conds))
         opts.setdefault("_latvars", []).extend(v for k, v in newv if k == "lat")
         if opts.get("mid_items") and rng.chance(1, 5): body.append(free_item())
@@ -70,7 +72,9 @@ def gen_rule(rng, p, head_rel, body_rels, opts):
         if p["rels"][head_rel].get("lat") and j == ar - 1:
             hargs.append(opts["lat_head"](bound)); continue
         x = rng.below(100)
-        if bound and x < 70: hargs.append(("var", rng.choice(bound)))
+        if bound and x < 70:
+            v = rng.choice(bound); hargs.append(("var", v))
+            if v in derived and ("if", ("le", ("var", v), BOUND)) not in guards: guards.append(("if", ("le", ("var", v), BOUND)))
         elif bound and x < 88:
             v = rng.choice(bound)
             hargs.append(("add", ("var", v), 1)); guards.append(("if", ("lt", ("var", v), BOUND)))
